@@ -476,6 +476,8 @@ type Plugin struct {
 	Caps        []bgp.Capability
 	OpenVeto    *bgp.Notification // returned from OnOpenMessage
 	OpenDelay   time.Duration     // time spent inside OnOpenMessage
+	CloseDelay  time.Duration     // time spent inside OnClose
+	MutateCaps  bool              // GetCapabilities returns the same slice every time, updated in place
 	HandlerVeto int               // 1-based index of the UPDATE whose handler returns VetoNotif (0 = never)
 	VetoNotif   *bgp.Notification
 	NilHandler  bool
@@ -514,6 +516,9 @@ func notifTerm(n *bgp.Notification) string {
 func (pl *Plugin) GetCapabilities(c bgp.PeerConfig) []bgp.Capability {
 	g := gid()
 	pl.tr().log(pl.peer.key, "cb.enter", "GetCapabilities", g)
+	if pl.MutateCaps && len(pl.Caps) > 0 && len(pl.Caps[0].Value) > 0 {
+		pl.Caps[0].Value[len(pl.Caps[0].Value)-1]++ // same backing arrays, new content
+	}
 	pl.tr().log(pl.peer.key, "cb.exit", "GetCapabilities", g, capsTerm(pl.Caps))
 	return pl.Caps
 }
@@ -597,7 +602,20 @@ func (pl *Plugin) OnEstablished(c bgp.PeerConfig, w bgp.UpdateMessageWriter) bgp
 func (pl *Plugin) OnClose(c bgp.PeerConfig) {
 	g := gid()
 	pl.tr().log(pl.peer.key, "cb.enter", "OnClose", g)
+	if pl.CloseDelay > 0 {
+		time.Sleep(pl.CloseDelay)
+	}
 	pl.tr().log(pl.peer.key, "cb.exit", "OnClose", g)
+}
+
+// waitWriters waits for the writer goroutines; those that never return stay "pending" in the trace.
+func (pl *Plugin) waitWriters(timeout time.Duration) {
+	done := make(chan struct{})
+	go func() { pl.wg.Wait(); close(done) }()
+	select {
+	case <-done:
+	case <-time.After(timeout):
+	}
 }
 
 // aliasCheck re-compares every delivered slice with the private copy taken at delivery.
@@ -680,6 +698,39 @@ func (r *Remote) listen() {
 			r.accCh <- cn
 		}
 	}()
+}
+
+// stall makes connects to the peer's port hang: a listening socket with backlog 0 whose accept queue
+// is full, so the kernel drops further SYNs (Linux). Returns a function that ends the stall.
+func (r *Remote) stall() (end func()) {
+	fd, err := syscall.Socket(syscall.AF_INET, syscall.SOCK_STREAM, 0)
+	if err != nil {
+		panic(err)
+	}
+	syscall.SetsockoptInt(fd, syscall.SOL_SOCKET, syscall.SO_REUSEADDR, 1)
+	a4 := r.peer.addr.As4()
+	if err := syscall.Bind(fd, &syscall.SockaddrInet4{Port: r.peer.port, Addr: a4}); err != nil {
+		panic(err)
+	}
+	if err := syscall.Listen(fd, 0); err != nil {
+		panic(err)
+	}
+	// fill the accept queue (backlog 0 admits one connection)
+	var fillers []net.Conn
+	for i := 0; i < 2; i++ {
+		c, err := net.DialTimeout("tcp", r.hostPort(r.peer.port), 200*time.Millisecond)
+		if err == nil {
+			fillers = append(fillers, c)
+		}
+	}
+	r.tr().log(r.peer.key, "listen", "stalled")
+	return func() {
+		for _, c := range fillers {
+			c.Close()
+		}
+		syscall.Close(fd)
+		r.tr().log(r.peer.key, "listen", "closed")
+	}
 }
 
 func (r *Remote) unlisten() {
